@@ -597,6 +597,8 @@ func (fv *FnVerifier) atReturn(r *ssa.Return, st *State) {
 	for k, v := range fv.names {
 		names[k] = v
 	}
+	var retVals []Val
+	postSnap := st.clone()
 	for i, res := range r.Results {
 		v := fv.value(res, st)
 		if v.IsNil {
@@ -605,6 +607,7 @@ func (fv *FnVerifier) atReturn(r *ssa.Return, st *State) {
 		if v.Addr != nil {
 			unsupported("returning interior pointer")
 		}
+		retVals = append(retVals, v)
 		if i < len(fv.fc.Results) {
 			names[fv.fc.Results[i].Name] = v
 		}
@@ -619,7 +622,9 @@ func (fv *FnVerifier) atReturn(r *ssa.Return, st *State) {
 	ce := fv.newCEnv(names, st, fv.entry)
 	for _, c := range fv.fc.Ensures {
 		for _, part := range ce.evalClause(c) {
-			fv.oblige("post", part.label, reach, part.term, r.Pos(), c.Src)
+			o := fv.oblige("post", part.label, reach, part.term, r.Pos(), c.Src)
+			o.Ctx.post = postSnap
+			o.Ctx.results = retVals
 		}
 	}
 	// locks released as at entry
